@@ -110,15 +110,18 @@ def check_net(net, spec):
             re_exp = abs(m) * d / (eta * area)
             if not has_fr:
                 continue
-            if abs(m) > 1e-3 and abs(re - re_exp) > 1e-5 * (1 + re_exp):   # reported Re / lambda are those of the last linearisation
+            # reported Re / lambda are those of the last linearisation: they may lag the reported mass flow by the last Newton
+            # step (<= tol_m = 1e-9 kg/s at the tightened tolerances), nothing more
+            lag = 1e-7 + 1e-8 / abs(m)
+            if abs(m) > 1e-3 and abs(re - re_exp) > lag * (1 + re_exp):
                 fail("C02:reynolds:%s" % tbl, "Re = |mdot| d/(eta A)", table=tbl, index=int(idx), reported=re, expected=re_exp)
             if tbl == "pipe" and abs(m) > 1e-3:
                 if fm == "nikuradse":
                     lam_exp = 64 / re_exp + (1 / (2 * np.log10(3.71 * d / k)) ** 2 if not gas else 1 / (2 * np.log10(d / k) + 1.14) ** 2)
-                    ok = abs(lam - lam_exp) <= 1e-5 * lam_exp
+                    ok = abs(lam - lam_exp) <= lag * lam_exp
                 elif fm == "swamee-jain":
                     lam_exp = 0.25 / (np.log10(k / (3.7 * d) + 5.74 / re_exp ** 0.9)) ** 2
-                    ok = abs(lam - lam_exp) <= 1e-5 * lam_exp
+                    ok = abs(lam - lam_exp) <= lag * lam_exp
                 else:
                     lam_exp = None
                     f_cw = lam ** -0.5 + 2 * np.log10(2.51 / (re_exp * np.sqrt(lam)) + k / (3.71 * d))
